@@ -112,6 +112,14 @@ Init ==
     /\ wire = <<>> /\ stale = 0 /\ fault = "none"
     /\ sent = {} /\ cls = [l \in Lines |-> "none"] /\ delivered = {} /\ flags = {} /\ late = 0
 
+Restart ==
+    /\ now' = 2 /\ store' = {} /\ req' = "none" /\ client' = "none"
+    /\ hpc' = "idle" /\ rpc' = "none" /\ dpc' = "none" /\ spc' = "none"
+    /\ from' = 0 /\ buf' = Ping /\ chClosed' = FALSE /\ wdone' = FALSE /\ cancelled' = FALSE
+    /\ svcTick' = FALSE /\ pingTick' = FALSE /\ vcached' = FALSE
+    /\ wire' = <<>> /\ stale' = 0 /\ fault' = "none"
+    /\ sent' = {} /\ cls' = [l \in Lines |-> "none"] /\ delivered' = {} /\ flags' = {} /\ late' = 0
+
 -----------------------------------------------------------------------------
 (* the world *)
 
@@ -262,12 +270,14 @@ STick ==                                              \* for _ = range ticker.C
                    vcached, wire, stale, fault, sent, cls, delivered, flags>>
 
 \* dbVersion.GetVersionInfo(ctx, ..): o = "cached" | "ok" | "version" (database error) | "ctx" (context already cancelled)
+\* (database/sql looks at the context a moment before the database acts: a cancellation in between does not stop the statement,
+\* so "ok" / "version" / the outcomes of SQuery are not guarded by ~cancelled)
 SVersion(o) ==
     /\ spc = "version"
     /\ CASE o = "cached"  -> vcached /\ spc' = "done" /\ UNCHANGED <<vcached, fault>>
          [] o = "ctx"     -> ~vcached /\ cancelled /\ spc' = "exit" /\ UNCHANGED <<vcached, fault>>
-         [] o = "ok"      -> ~vcached /\ ~cancelled /\ vcached' = TRUE /\ spc' = "done" /\ UNCHANGED fault
-         [] o = "version" -> ~vcached /\ ~cancelled /\ "version" \in Faults /\ fault = "none"
+         [] o = "ok"      -> ~vcached /\ vcached' = TRUE /\ spc' = "done" /\ UNCHANGED fault
+         [] o = "version" -> ~vcached /\ "version" \in Faults /\ fault = "none"
                              /\ fault' = "version" /\ spc' = "exit" /\ UNCHANGED vcached
     /\ UNCHANGED <<now, store, req, client, hpc, rpc, dpc, from, buf, chClosed, wdone, cancelled, svcTick, pingTick,
                    wire, stale, sent, cls, delivered, flags, late>>
@@ -298,19 +308,19 @@ Deliver(to, P) ==
 SQuery(to, o, P) ==
     /\ spc = "query"
     /\ CASE o = "ctx"   -> cancelled /\ P = {} /\ spc' = "exit" /\ UNCHANGED <<buf, sent, flags, from, cls, fault>>
-         [] o = "none"  -> ~cancelled /\ P = Rows(to) /\ Deliver(to, P) /\ UNCHANGED fault
-         [] o = "query" -> ~cancelled /\ "query" \in Faults /\ fault = "none" /\ P = {}
+         [] o = "none"  -> P = Rows(to) /\ Deliver(to, P) /\ UNCHANGED fault
+         [] o = "query" -> "query" \in Faults /\ fault = "none" /\ P = {}
                            /\ fault' = "query" /\ spc' = "exit" /\ UNCHANGED <<buf, sent, flags, from, cls>>
-         [] o = "row"   -> ~cancelled /\ "row" \in Faults /\ fault = "none" /\ P \subseteq Rows(to)
+         [] o = "row"   -> "row" \in Faults /\ fault = "none" /\ P \subseteq Rows(to)
                            /\ fault' = "row"
-                           /\ IF "row_err_unnoticed" \in Dev
-                                THEN Deliver(to, P)   \* as coded: looks like a complete answer
-                                ELSE spc' = "exit" /\ UNCHANGED <<buf, sent, flags, from, cls>>
-         [] o = "scan"  -> ~cancelled /\ "scan" \in Faults /\ fault = "none" /\ P \subseteq Rows(to) /\ P # Rows(to)
+                           /\ (IF "row_err_unnoticed" \in Dev
+                                 THEN Deliver(to, P)  \* as coded: looks like a complete answer
+                                 ELSE spc' = "exit" /\ UNCHANGED <<buf, sent, flags, from, cls>>)
+         [] o = "scan"  -> "scan" \in Faults /\ fault = "none" /\ P \subseteq Rows(to) /\ P # Rows(to)
                            /\ fault' = "scan"
-                           /\ IF "err_frame" \in Dev
-                                THEN spc' = "errsend" /\ buf' = ErrTail      \* onErr(e.Err, res): res <- "]}}"
-                                ELSE spc' = "exit" /\ UNCHANGED buf
+                           /\ (IF "err_frame" \in Dev
+                                 THEN spc' = "errsend" /\ buf' = ErrTail     \* onErr(e.Err, res): res <- "]}}"
+                                 ELSE spc' = "exit" /\ UNCHANGED buf)
                            /\ UNCHANGED <<sent, flags, from, cls>>
     /\ UNCHANGED <<now, store, req, client, hpc, rpc, dpc, chClosed, wdone, cancelled, svcTick, pingTick,
                    vcached, wire, stale, delivered, late>>
